@@ -34,7 +34,7 @@ def owner_of(f):
         return "C19"
     if f["stage"] in ("xcopy", "copy_returned") or f["action"] == "Copy":
         return "C20"
-    if f["stage"] == "name_still_free":
+    if f["stage"] in ("name_still_free", "noise"):
         return "C12"
     out = f["out"]
     not_refused = f["stage"] == "outcome" and f["detail"].get("observed") == "ok"
